@@ -1,4 +1,5 @@
-"""Sidecar contract for C07: the closed-form (Hitzer) inverses, d <= 5.
+"""Sidecar contracts decided on *generic elements* by exact polynomial identities: the closed-form (Hitzer) inverses (C07, d <= 5)
+and the composite operators sw / proj / normsq (C06).
 
 The real body of `codegen_hitzer_inv` is interpreted on a *generic* element x of the algebra: one indeterminate per basis
 blade, coefficients in Z[x_0 .. x_{2^d - 1}] (exact integer polynomials in normal form), over an independent reference
@@ -97,11 +98,13 @@ class IP:
         return id(self)
 
 
-def _gp(A, B, sig, only_scalar=False):
+def _gp(A, B, sig, only_scalar=False, filt=None):
     R = {}
     for ka, va in A.items():
         for kb, vb in B.items():
             if only_scalar and ka != kb:
+                continue
+            if filt is not None and not filt(O.pc(ka), O.pc(kb), O.pc(ka ^ kb)):
                 continue
             s = O.bsign(ka, kb, sig)
             if s == 0:
@@ -165,6 +168,17 @@ class RefMV:
     def gp(self, o):
         return self * o
 
+    def _filtered(self, o, filt):
+        if not isinstance(o, RefMV):
+            raise OutOfSubset(f'product of a multivector with {type(o).__name__}')
+        return RefMV(self.world, _gp(self._need(), o._need(), self.world['sig'], filt=filt))
+
+    def __or__(self, o):            # inner product: grade |r - s|
+        return self._filtered(o, lambda r, s_, t: t == abs(r - s_))
+
+    def __xor__(self, o):           # outer product: grade r + s
+        return self._filtered(o, lambda r, s_, t: t == r + s_)
+
     def __sub__(self, o):
         if not isinstance(o, RefMV):
             raise OutOfSubset('difference with a non-multivector')
@@ -224,7 +238,9 @@ class RefMV:
 def _generic(d, sig):
     world = {'sig': list(sig)}
     one = RefMV(world, {0: IP({(): 1})})
-    world['alg'] = sym('algebra', attrs={'d': d, 'blades': sym('blades', attrs={'e': one})})
+    signs = sym('signs', on_getitem=lambda interp, me, idx: O.bsign(idx[0], idx[1], world['sig']))
+    world['alg'] = sym('algebra', attrs={'d': d, 'blades': sym('blades', attrs={'e': one}), 'signs': signs})
+    world['alg'].kvc_len = lambda: 2 ** d
     x = RefMV(world, {k: IP.var(k) for k in range(2 ** d)})
     return world, x
 
@@ -236,14 +252,47 @@ def signatures(d, tier):
     # and conjugation, hence the closed form (stated symmetry argument).  Quick tier: none (bounded stand-in only).
     if tier == 'quick':
         return []
-    cls = [(5, 0, 0), (4, 1, 0), (4, 0, 1), (3, 1, 1)]
+    cls = [(p, q, 5 - p - q) for p in range(6) for q in range(6 - p)]           # all 21 classes
     return [[1] * p + [-1] * q + [0] * r for p, q, r in cls]
+
+
+def _d5_worker(sig):
+    """one 5-D signature in a worker process: returns the obligations (name, holds, meta) and out-of-subset reports"""
+    from kvc.harness import Harness
+    Hw = Harness()
+    _hitzer_one(Hw, Hw.fn(REL, 'codegen_hitzer_inv'), 5, sig)
+    return [(n, s2 is None, m) for n, s2, m in Hw.obls], list(Hw.out_of_subset), list(Hw.vacuous), list(Hw.notes)
 
 
 def vc_hitzer_inv(H, tier='quick'):
     fuc = H.fn(REL, 'codegen_hitzer_inv')
-    for d in range(0, 6):
+    for d in range(0, 5):
         for sig in signatures(d, tier):
+            _hitzer_one(H, fuc, d, sig)
+    sig5 = signatures(5, tier)
+    if sig5:
+        # about two minutes of exact polynomial arithmetic per signature: eight worker processes
+        import multiprocessing as mp
+        import z3
+        try:
+            with mp.get_context('fork').Pool(8) as pool:
+                outs = pool.map(_d5_worker, sig5, chunksize=1)
+        except Exception as e:                 # no fork available: sequential
+            H.notes.append(f'd = 5 worker pool unavailable ({type(e).__name__}); run sequentially')
+            outs = [_d5_worker(sg) for sg in sig5]
+        for obls, oos, vac, notes in outs:
+            for n, holds, m in obls:
+                H.add_goal(n, [], z3.BoolVal(bool(holds)), kind=(m or {}).get('kind', 'post'), meta=(m or {}).get('meta'))
+            H.out_of_subset.extend(oos)
+            H.vacuous.extend(vac)
+            for nt in notes:
+                if nt not in H.notes:
+                    H.notes.append(nt)
+
+
+def _hitzer_one(H, fuc, d, sig):
+    if True:
+        if True:
             def body(ctx, d=d, sig=sig):
                 world, x = _generic(d, sig)
                 r = H.closure(Interp(ctx, source_name=REL), fuc, {'Fraction': Frac})(x, symbolic=True)
@@ -305,3 +354,56 @@ def vc_inv_patterns(H, tier='quick'):
                 ctx.oblige(f'operands restricted to any set of grades ({n} patterns): y * num == num * y == denom as polynomial identities',
                            not bad, meta={'failing_grade_sets': bad[:6]})
             H.run_paths(fuc, f'patterns,d={d},signature={sig}', body)
+
+
+def vc_compositions_generic(H, tier='quick'):
+    """C06 on generic operands: the real bodies of codegen_sw / codegen_proj / codegen_normsq (with codegen_product inlined when a
+    body calls it) are interpreted on generic x and y (one indeterminate per blade each) and must return x*y*~x, (x|y)*~y, x*~x
+    *as polynomial identities*, for every signature with d <= 3 and selected (thorough: all) signatures with d = 4.  Unlike the
+    structural contract (which only follows bodies written as that very composition) this one decides any body that computes
+    the result through the elementary operators or through codegen_product with its own filters."""
+    fs = {n: H.fn(REL, f'codegen_{n}') for n in ('sw', 'proj', 'normsq')}
+    for d in (1, 2, 3, 4):
+        sigs = [list(s_) for s_ in itertools.product([1, -1, 0], repeat=d)]
+        if d == 4 and tier == 'quick':
+            sigs = [[1, 1, 1, 1], [1, 1, 1, -1], [0, 1, 1, 1], [1, -1, 1, -1]]
+        for sig in sigs:
+            for name, fuc in fs.items():
+                def body(ctx, d=d, sig=sig, name=name, fuc=fuc):
+                    N = 2 ** d
+                    # operand shapes: generic, even, odd for x; generic and every single grade for y (a body may branch on them)
+                    xshapes = [('generic', lambda k: True), ('even', lambda k: O.pc(k) % 2 == 0), ('odd', lambda k: O.pc(k) % 2 == 1)]
+                    yshapes = [('generic', lambda k: True)] + [(f'grade {g}', (lambda k, g=g: O.pc(k) == g)) for g in range(d + 1)]
+                    if name == 'normsq':
+                        yshapes = yshapes[:1]
+                        xshapes = xshapes + [(f'grade {g}', (lambda k, g=g: O.pc(k) == g)) for g in range(d + 1)]
+                    spec = {'sw': 'x * y * ~x', 'proj': '(x | y) * ~y', 'normsq': 'x * ~x'}[name]
+                    failing = []
+                    for xn, xf in xshapes:
+                        for yn, yf in yshapes:
+                            world, _ = _generic(d, sig)
+                            x = RefMV(world, {k: IP.var(k) for k in range(N) if xf(k)})
+                            y = RefMV(world, {k: IP.var(N + k) for k in range(N) if yf(k)})
+                            clo = H.closure(Interp(ctx, source_name=REL), fuc)
+                            r = clo(x, y) if name != 'normsq' else clo(x)
+                            if isinstance(r, RefMV):
+                                got = r._need()
+                            elif isinstance(r, dict):
+                                got = {k: IP.lift(v) if not isinstance(v, IP) else v for k, v in r.items()}
+                            else:
+                                raise OutOfSubset(f'codegen_{name} returned {type(r).__name__}')
+                            got = {k: v for k, v in got.items() if v}
+                            X, Y = x.comp, y.comp
+                            if name == 'sw':
+                                want = _gp(_gp(X, Y, sig), O.rev(X), sig)
+                            elif name == 'proj':
+                                want = _gp(_gp(X, Y, sig, filt=lambda r_, s_, t: t == abs(r_ - s_)), O.rev(Y), sig)
+                            else:
+                                want = _gp(X, O.rev(X), sig)
+                            bad = sorted(k for k in set(got) | set(want) if not (got.get(k, IP()) == want.get(k, IP())))
+                            if bad:
+                                failing.append((xn, yn, bad[:4]))
+                    ctx.oblige(f'codegen_{name} on generic operands (x: generic / even / odd; y: generic / each single grade) == {spec}: every '
+                               'coefficient is the same polynomial (no blade dropped unless identically zero)',
+                               not failing, meta={'failing_shapes': failing[:6]})
+                H.run_paths(fuc, f'generic,d={d},signature={sig}', body)
